@@ -508,6 +508,21 @@ func scenarioTransport(proto string, workers, queue, n, trial int) {
 	}
 	// all workers busy, queue full, the receive loop blocked on the submit: now let everything run
 	time.Sleep(time.Duration(20+trial%20) * time.Millisecond)
+	// every invocation that has started is still waiting at the gate: their number is the
+	// parallelism the pool allowed
+	p.mu.Lock()
+	entered := 0
+	for _, k := range p.count {
+		entered += k
+	}
+	p.mu.Unlock()
+	run.Max("max_parallelism_seen_transport", int64(entered))
+	if entered > workers {
+		run.Violation("parallelism-exceeded", "transport-"+proto, fmt.Sprintf("%s server (MaxInvoke=%d, QueueCap=%d): %d handlers were running at the same time during a burst of %d requests", proto, workers, queue, entered, n),
+			map[string]interface{}{"scenario": "transport-burst", "proto": proto, "workers": workers, "queue": queue, "requests": n, "running_at_once": entered})
+		close(p.gate)
+		return
+	}
 	close(p.gate)
 	ok := waitUntil(func() bool {
 		p.mu.Lock()
@@ -542,7 +557,7 @@ func scenarioTransport(proto string, workers, queue, n, trial int) {
 func main() {
 	run = vlib.Start("C19")
 	rogger.SetLevel(rogger.OFF)
-	run.SetRule("configurations workers{1,2,8,64} x queue{0,1,16,1024} x submitters{1,8,64}; scenarios: A throughput (every job once, gauge<=workers, idle Release returns, no goroutine left), B capacity (workers+1+queue gated submissions complete without a gate opening), C Release with gated running jobs and 0/1/many backlog (stamp order), D Release racing with submitters, E bursts of requests into real TCP/UDP servers whose pool (MaxInvoke 1..4, QueueCap 0..2) is saturated by gated handlers (the receive loop is the submitter: block, never drop). A case is (scenario, configuration, observed high-water mark / executed count); distinct by that key.")
+	run.SetRule("configurations workers{1,2,8,64} x queue{0,1,16,1024} x submitters{1,8,64}; scenarios: A throughput (every job once, gauge<=workers, idle Release returns, no goroutine left), B capacity (workers+1+queue gated submissions complete without a gate opening), C Release with gated running jobs and 0/1/many backlog (stamp order), D Release racing with submitters, E bursts of requests into real TCP/UDP servers whose pool (MaxInvoke 1..4, QueueCap 0..2) is saturated by gated handlers (the receive loop is the submitter: block, never drop; at most MaxInvoke handlers at the gate). A case is (scenario, configuration, observed high-water mark / executed count); distinct by that key.")
 	run.Assume("jobs still queued when Release is called may be dropped (the property speaks about an unreleased pool)")
 	run.Assume("goroutine accounting: Release 'stops all workers' is observed as runtime.NumGoroutine returning to its value before NewPool (polled up to 5 s)")
 	reps := run.Pick(1, 12)
